@@ -16,9 +16,9 @@ def q(tier, quick, thorough):
 # ---------------------------------------------------------------- C07
 def c07_jobs(tier):
     return [
-        Job('rt-default', 'c07', 'rt', q(tier, 60000, 3000000)),
-        Job('rt-float', 'c07', 'rt', q(tier, 30000, 1500000), defines={'ARDUINOJSON_USE_DOUBLE': 0}),
-        Job('rt-small', 'c07', 'rt', q(tier, 30000, 1500000), defines={'ARDUINOJSON_SLOT_ID_SIZE': 1, 'ARDUINOJSON_STRING_LENGTH_SIZE': 1, 'ARDUINOJSON_DEBUG': 1}),
+        Job('rt-default', 'c07', 'rt', q(tier, 300000, 15000000), timeout=q(tier, 900, 7200)),
+        Job('rt-float', 'c07', 'rt', q(tier, 100000, 6000000), timeout=q(tier, 900, 7200), defines={'ARDUINOJSON_USE_DOUBLE': 0}),
+        Job('rt-small', 'c07', 'rt', q(tier, 100000, 6000000), timeout=q(tier, 900, 7200), defines={'ARDUINOJSON_SLOT_ID_SIZE': 1, 'ARDUINOJSON_STRING_LENGTH_SIZE': 1, 'ARDUINOJSON_DEBUG': 1}),
     ]
 
 
@@ -41,9 +41,9 @@ PROPS['C07'] = dict(
 # ---------------------------------------------------------------- C01
 def c01_jobs(tier):
     return [
-        Job('default', 'c01', 'gen', q(tier, 80000, 4000000)),
-        Job('debug-small', 'c01', 'gen', q(tier, 30000, 1000000), defines={'ARDUINOJSON_SLOT_ID_SIZE': 2, 'ARDUINOJSON_STRING_LENGTH_SIZE': 1, 'ARDUINOJSON_DEBUG': 1, 'ARDUINOJSON_POOL_CAPACITY': 8}),
-        Job('float', 'c01', 'gen', q(tier, 30000, 1000000), defines={'ARDUINOJSON_USE_DOUBLE': 0, 'ARDUINOJSON_SLOT_ID_SIZE': 4, 'ARDUINOJSON_STRING_LENGTH_SIZE': 4}),
+        Job('default', 'c01', 'gen', q(tier, 400000, 40000000), timeout=q(tier, 900, 7200)),
+        Job('debug-small', 'c01', 'gen', q(tier, 100000, 10000000), timeout=q(tier, 900, 7200), defines={'ARDUINOJSON_SLOT_ID_SIZE': 2, 'ARDUINOJSON_STRING_LENGTH_SIZE': 1, 'ARDUINOJSON_DEBUG': 1, 'ARDUINOJSON_POOL_CAPACITY': 8}),
+        Job('float', 'c01', 'gen', q(tier, 100000, 10000000), timeout=q(tier, 900, 7200), defines={'ARDUINOJSON_USE_DOUBLE': 0, 'ARDUINOJSON_SLOT_ID_SIZE': 4, 'ARDUINOJSON_STRING_LENGTH_SIZE': 4}),
     ]
 
 
@@ -55,7 +55,7 @@ PROPS['C01'] = dict(
          '(fresh, dirty, shrunk, member proxy with sibling, element beyond end, JsonVariant) with the nesting limit at or above the depth; '
          'non-trivial = container, escape, float or repeated key; distinct = distinct text',
     jobs=c01_jobs,
-    min_evaluations=dict(quick=100000, thorough=3000000),
+    min_evaluations=dict(quick=400000, thorough=30000000),
     technique='constructive differential monitoring: reference renderer (value -> random RFC 8259 spelling) feeding deserializeJson under ASan+UBSan, result extracted through the public API and compared with the value the text was built from',
     level_text='Exploration: the denotation of every text is known by construction (no parser in the oracle); held on the texts and destination states observed.',
     level_note='Trusts the reference renderer (self-tested against CPython json in --setup) and glibc strtold for the value of float literals; tolerance per C12.',
@@ -231,9 +231,9 @@ PROPS['C08'] = dict(
 def c09_jobs(tier):
     fl = {'ARDUINOJSON_USE_DOUBLE': 0}
     return [
-        Job('decode', 'c09', 'decode', q(tier, 150000, 5000000)),
-        Job('prefix', 'c09', 'prefix', q(tier, 12000, 500000)),
-        Job('corrupt', 'c09', 'corrupt', q(tier, 20000, 1000000)),
+        Job('decode', 'c09', 'decode', q(tier, 400000, 20000000), timeout=q(tier, 900, 7200)),
+        Job('prefix', 'c09', 'prefix', q(tier, 30000, 1500000), timeout=q(tier, 900, 7200)),
+        Job('corrupt', 'c09', 'corrupt', q(tier, 50000, 3000000), timeout=q(tier, 900, 7200)),
         Job('decode-float', 'c09', 'decode', q(tier, 60000, 2000000), defines=fl),
         Job('prefix-small', 'c09', 'prefix', q(tier, 5000, 200000), defines={'ARDUINOJSON_STRING_LENGTH_SIZE': 1, 'ARDUINOJSON_SLOT_ID_SIZE': 1, 'ARDUINOJSON_DEBUG': 1}),
         Job('corrupt-wide', 'c09', 'corrupt', q(tier, 8000, 300000), defines={'ARDUINOJSON_STRING_LENGTH_SIZE': 4}),
@@ -335,8 +335,8 @@ PROPS['C06'] = dict(
 # ---------------------------------------------------------------- C16
 def c16_jobs(tier):
     return [
-        Job('json', 'c16', 'json', q(tier, 60000, 4000000), shim=True),
-        Job('msgpack', 'c16', 'msgpack', q(tier, 60000, 4000000), shim=True),
+        Job('json', 'c16', 'json', q(tier, 150000, 8000000), shim=True, timeout=q(tier, 900, 7200)),
+        Job('msgpack', 'c16', 'msgpack', q(tier, 150000, 8000000), shim=True, timeout=q(tier, 900, 7200)),
         Job('json-small-debug', 'c16', 'json', q(tier, 20000, 1000000), defines={'ARDUINOJSON_SLOT_ID_SIZE': 1, 'ARDUINOJSON_STRING_LENGTH_SIZE': 1, 'ARDUINOJSON_DEBUG': 1}),
     ]
 
@@ -430,8 +430,8 @@ PROPS['C10'] = dict(
 # ---------------------------------------------------------------- C11
 def c11_jobs(tier):
     return [
-        Job('json', 'c11', 'json', q(tier, 100000, 5000000)),
-        Job('msgpack', 'c11', 'msgpack', q(tier, 100000, 5000000)),
+        Job('json', 'c11', 'json', q(tier, 250000, 15000000), timeout=q(tier, 900, 7200)),
+        Job('msgpack', 'c11', 'msgpack', q(tier, 250000, 15000000), timeout=q(tier, 900, 7200)),
         Job('json-tiny', 'c11', 'json', q(tier, 30000, 1000000), defines={'ARDUINOJSON_POOL_CAPACITY': 4, 'ARDUINOJSON_SLOT_ID_SIZE': 2, 'ARDUINOJSON_DEBUG': 1, 'ARDUINOJSON_ENABLE_COMMENTS': 1}),
         Job('msgpack-tiny', 'c11', 'msgpack', q(tier, 30000, 1000000), defines={'ARDUINOJSON_POOL_CAPACITY': 4, 'ARDUINOJSON_SLOT_ID_SIZE': 2, 'ARDUINOJSON_DEBUG': 1}),
     ]
